@@ -303,6 +303,53 @@ def h_named_ports(ctx):
     return None
 
 
+LONG_LINES = [
+    # (class, platform, text): <= 100 characters as written, longer once ports are rendered by name / hosts by keyword
+    ("Ace", "ios", "10 permit udp 10.100.100.0 0.0.0.255 eq 4500 500 123 10.200.200.0 0.0.0.255 eq 4500 500 161 162 log"),
+    ("Ace", "ios", "4294967290 permit tcp object-group SOURCE-SERVERS-DC1 eq 15001 15002 object-group CLIENTS-DC2 eq 135"),
+    ("Ace", "ios", "permit tcp 10.111.112.0 0.0.0.255 eq 5631 1494 2748 1352 10.121.122.0 0.0.0.255 eq 5631 1494 3020 ack"),
+    ("Ace", "nxos", "4294967295 permit udp 100.100.100.100/32 range 4500 5632 200.200.200.200/32 range 1645 1646 log"),
+    ("Port", "ios", "eq 7 9 13 19 20 21 22 23 25 37 43 49 53 70 79 80 101 109 110 111 113 119 135 139 143 179 194 389"),
+    ("Acl", "ios", "ip access-list extended A1\n  remark " + "x" * 90 + "\n  10 permit udp 10.100.100.0 0.0.0.255 eq 4500 500 123 10.200.200.0 0.0.0.255 eq 4500 500 161 162 log\n  deny ip any any"),
+    ("AceGroup", "ios", "permit udp 10.100.100.0 0.0.0.255 eq 4500 500 123 10.200.200.0 0.0.0.255 eq 4500 500 161 162 log\ndeny ip any any"),
+    ("Remark", "ios", "remark " + "long text " * 9),
+]
+
+
+def h_long(ctx):
+    """lines close to 100 characters whose rendering is longer than the input (numbers -> names, /32 -> host): what the library
+    renders must be read back by the library unchanged"""
+    import cisco_acl
+    k = ctx.pick("line", list(range(len(LONG_LINES))))
+    cls, platform, text = LONG_LINES[k]
+    port_nr = ctx.pick("port_nr", [False, True])
+    K = getattr(cisco_acl, cls)
+    kw = dict(platform=platform)
+    if cls in ("Ace", "Acl", "AceGroup", "Port"):
+        kw["port_nr"] = port_nr
+    if cls == "Port":
+        kw["protocol"] = "tcp"
+    o1 = K(text, **kw)
+    t1 = o1.line
+    ctx.observe("t1", t1)
+    ctx.observe("len", [len(l) for l in t1.split("\n")])
+    n_in = len([l for l in text.split("\n")])
+    cl = Claims(ctx)
+    cl("no-line-lost-at-first-parse", len(t1.split("\n")) != n_in)
+    try:
+        o2 = K(t1, **kw)
+    except ValueError:
+        ctx.observe("reparse", "ValueError")
+        cl("rendered-text-accepted", True)
+        cl.done()
+        return None
+    cl("text-fixpoint", o2.line != t1)
+    cl("data-fixpoint", Not_(deep_eq(o2.data(), o1.data())))
+    cl.done()
+    ctx.reach("long")
+    return None
+
+
 def _acl_inputs(ctx, indents=("", " ", "  ", "    ")):
     name, sel = ctx.pick("acl", ACLS)
     platform = ctx.pick("platform", ["ios", "nxos"])
@@ -455,5 +502,7 @@ def specs(tier, seed, concrete=False):
         Spec("standard_acl", h_standard_acl, [{"lines": l} for l in STD_LINES], goals=["standard"], describe="standard ACLs"),
         Spec("named_ports", h_named_ports, [{"cfg": list(c), "side": sd} for c in NAMED_CFG for sd in ("src", "dst")], goals=["named"],
              describe="every port keyword of every table inside an ACE, by name and by number"),
+        Spec("long", h_long, [{"line": k} for k in range(len(LONG_LINES))], goals=["long"],
+             describe="lines near 100 characters whose rendering is longer than the input"),
         Spec("config", h_config, [{"acl": a, "platform": p} for a in ACLS[::2] for p in ("ios", "nxos")], goals=["config"], describe="acls()/addrgroups()"),
     ]
